@@ -160,9 +160,11 @@ def definedness(ctx):
         haz = [it for it in log.items if it[0] == "underflow"]
         n = V.check_sides(T_filter(log, lambda it: it[0] != "underflow"), G.facts(), "C01.def." + kind, out)
         for it in haz:
-            out.append(Clause("C01.def", "refuted", "npsym",
-                              "log() applied at %s to a sum of exponentials outside the stable log-add-exp: "
-                              "underflows to log(0) = -inf for samples far from every mean" % it[3],
+            # a HAZARD, not a counterexample: whether the sum can underflow depends on what was subtracted before the exp (a shift by
+            # the maximum the pattern matcher does not recognise is safe) -- undecided; the native far-tail search decides
+            out.append(Clause("C01.def", "undecided", "npsym",
+                              "log() applied at %s to a sum of exponentials outside the stable log-add-exp (and outside the recognised "
+                              "max-shift idiom): underflows to log(0) = -inf for samples far from every mean unless shifted" % it[3],
                               witness={"replay": "far-tail"}))
         if not haz:
             out.append(Clause("C01.def.%s.lse" % kind, "discharged", "npsym",
